@@ -19,14 +19,18 @@ Open Scope Z_scope.
 Local Strategy 1000 [fteik3d_p1 sweep3d t_anad].
 
 (* on a grid with a single layer of nodes along one axis (or none) every loop of sweep3d is empty *)
+Lemma pass3T_small {T} `{Num T} nz nx ny slow dargs uz ux uy (tt : arr T) :
+  nz <= 1 \/ nx <= 1 \/ ny <= 1 -> pass3T nz nx ny slow dargs uz ux uy tt = tt.
+Proof.
+  intros Hs. unfold pass3T.
+  destruct Hs as [Hs|[Hs|Hs]];
+    repeat first [ rewrite (dir_range_small _ _ Hs); reflexivity | apply for_list_id_ext; intros ].
+Qed.
 Lemma sweep3d_small {T} `{Num T} (tt : arr T) ttsgn slow dz dx dy nz nx ny grad :
   nz <= 1 \/ nx <= 1 \/ ny <= 1 -> fst (sweep3d tt ttsgn slow dz dx dy nz nx ny grad) = tt.
 Proof.
   intros Hs. destruct (sweep3d_proj nz nx ny slow dz dx dy) as (dargs & E & _).
-  rewrite E. unfold sweep3dT, pass3T. destruct Hs as [Hs|[Hs|Hs]].
-  - rewrite !(dir_range_small _ nz Hs). cbn [for_list fold_left]. rewrite !for_list_id. reflexivity.
-  - rewrite !(dir_range_small _ nx Hs). cbn [for_list fold_left]. rewrite !for_list_id. reflexivity.
-  - rewrite !(dir_range_small _ ny Hs). reflexivity.
+  rewrite E. unfold sweep3dT. cbv zeta. rewrite !(pass3T_small _ _ _ _ _ _ _ _ _ Hs). reflexivity.
 Qed.
 
 Section Solve.
